@@ -56,7 +56,7 @@ fn mk_pred(vb: &[u8], voff: usize, n: usize, nulls: Option<(&[u8], usize)>) -> B
 // (count is the number of selected rows):  None <=> len == 0 \/ count == 0;  All <=> count == len /\
 // count != 0;  otherwise one of the two *lazy* strategies (which one is a performance choice and not
 // part of the contract) — never a materialised strategy.
-// @unit name=default_strategy_contract props=C03 kind=complete fns=IterationStrategy::default_strategy
+// @unit name=default_strategy_contract props=C03 kind=complete fns=IterationStrategy::default_strategy tier=quick
 #[kani::proof]
 fn default_strategy_contract() {
     let len: usize = kani::any();
@@ -112,11 +112,11 @@ macro_rules! prep_null_mask {
         }
     };
 }
-// @unit name=prep_null_mask_n5 props=C03 kind=bounded bound=rows=5_bit_offsets=(0,3) fns=prep_null_mask_filter tier=thorough note=not_confirmed_at_checkpoint
+// @unit name=prep_null_mask_n5 props=C03 kind=bounded bound=rows=5_bit_offsets=(0,3) fns=prep_null_mask_filter tier=quick
 prep_null_mask!(prep_null_mask_n5, 5, 0, 3);
-// @unit name=prep_null_mask_n9_off props=C03 kind=bounded bound=rows=9_bit_offsets=(3,6) fns=prep_null_mask_filter
+// @unit name=prep_null_mask_n9_off props=C03 kind=bounded bound=rows=9_bit_offsets=(3,6) fns=prep_null_mask_filter tier=quick
 prep_null_mask!(prep_null_mask_n9_off, 9, 3, 6);
-// @unit name=prep_null_mask_n16 props=C03 kind=bounded bound=rows=16_bit_offsets=(5,0) fns=prep_null_mask_filter tier=thorough note=not_confirmed_at_checkpoint
+// @unit name=prep_null_mask_n16 props=C03 kind=bounded bound=rows=16_bit_offsets=(5,0) fns=prep_null_mask_filter tier=quick
 prep_null_mask!(prep_null_mask_n16, 16, 5, 0);
 
 // Contract (C03): FilterBuilder::new(p).build() for a predicate of N rows (values/validity symbolic,
@@ -158,15 +158,15 @@ macro_rules! builder_count {
         }
     };
 }
-// @unit name=builder_count_n3 props=C03 kind=bounded bound=rows=3_no_validity_bit_offset=0 fns=FilterBuilder::new,FilterBuilder::build,FilterPredicate::count
+// @unit name=builder_count_n3 props=C03 kind=bounded bound=rows=3_no_validity_bit_offset=0 fns=FilterBuilder::new,FilterBuilder::build,FilterPredicate::count tier=thorough
 builder_count!(builder_count_n3, 3, 0, 0, false);
-// @unit name=builder_count_n3_nulls props=C03 kind=bounded bound=rows=3_with_validity_bit_offsets=(0,5) fns=FilterBuilder::new,FilterBuilder::build,FilterPredicate::count,prep_null_mask_filter tier=thorough timeout=1200 mem=4 note=not_confirmed_at_checkpoint
+// @unit name=builder_count_n3_nulls props=C03 kind=bounded bound=rows=3_with_validity_bit_offsets=(0,5) fns=FilterBuilder::new,FilterBuilder::build,FilterPredicate::count,prep_null_mask_filter timeout=1200 mem=4 tier=quick
 builder_count!(builder_count_n3_nulls, 3, 0, 5, true);
-// @unit name=builder_count_n9 props=C03 kind=bounded bound=rows=9_no_validity_bit_offset=2 fns=FilterBuilder::new,FilterBuilder::build,FilterPredicate::count tier=thorough timeout=1200 mem=4
+// @unit name=builder_count_n9 props=C03 kind=bounded bound=rows=9_no_validity_bit_offset=2 fns=FilterBuilder::new,FilterBuilder::build,FilterPredicate::count timeout=1200 mem=4 tier=quick
 builder_count!(builder_count_n9, 9, 2, 7, false);
-// @unit name=builder_count_n9_nulls props=C03 kind=bounded bound=rows=9_with_validity_bit_offsets=(2,7) fns=FilterBuilder::new,FilterBuilder::build,FilterPredicate::count,prep_null_mask_filter tier=thorough timeout=1200 mem=4
+// @unit name=builder_count_n9_nulls props=C03 kind=bounded bound=rows=9_with_validity_bit_offsets=(2,7) fns=FilterBuilder::new,FilterBuilder::build,FilterPredicate::count,prep_null_mask_filter timeout=1200 mem=4 tier=quick
 builder_count!(builder_count_n9_nulls, 9, 2, 7, true);
-// @unit name=builder_count_n16_nulls props=C03 kind=bounded bound=rows=16_with_validity_bit_offsets=(0,4) fns=FilterBuilder::new,FilterBuilder::build,FilterPredicate::count,prep_null_mask_filter tier=thorough timeout=1200 mem=4 note=not_confirmed_at_checkpoint
+// @unit name=builder_count_n16_nulls props=C03 kind=bounded bound=rows=16_with_validity_bit_offsets=(0,4) fns=FilterBuilder::new,FilterBuilder::build,FilterPredicate::count,prep_null_mask_filter timeout=1200 mem=4 tier=quick
 builder_count!(builder_count_n16_nulls, 16, 0, 4, true);
 
 // Contract (C03): IndexIterator::new(mask, remaining = #set) yields exactly the set positions of the
@@ -216,11 +216,11 @@ macro_rules! index_iter {
         }
     };
 }
-// @unit name=index_iter_n6 props=C03 kind=bounded bound=mask=6_bits_bit_offset=0 fns=IndexIterator::new,IndexIterator::next
+// @unit name=index_iter_n6 props=C03 kind=bounded bound=mask=6_bits_bit_offset=0 fns=IndexIterator::new,IndexIterator::next tier=thorough note=passed_in_earlier_non-lean_form_144_cpu_s_same_macro_as_index_iter_n6_off5_lean_form_not_rerun
 index_iter!(index_iter_n6, 6, 0);
-// @unit name=index_iter_n6_off5 props=C03 kind=bounded bound=mask=6_bits_bit_offset=5_(crosses_a_byte) fns=IndexIterator::new,IndexIterator::next
+// @unit name=index_iter_n6_off5 props=C03 kind=bounded bound=mask=6_bits_bit_offset=5_(crosses_a_byte) fns=IndexIterator::new,IndexIterator::next tier=thorough
 index_iter!(index_iter_n6_off5, 6, 5);
-// @unit name=index_iter_n10 props=C03 kind=bounded bound=mask=10_bits_bit_offset=3 fns=IndexIterator::new,IndexIterator::next tier=thorough timeout=900 mem=6 note=not_confirmed_at_checkpoint
+// @unit name=index_iter_n10 props=C03 kind=bounded bound=mask=10_bits_bit_offset=3 fns=IndexIterator::new,IndexIterator::next timeout=900 mem=6 tier=thorough note=not_confirmed_not_run
 index_iter!(index_iter_n10, 10, 3);
 
 macro_rules! slices_iter {
@@ -269,11 +269,11 @@ macro_rules! slices_iter {
         }
     };
 }
-// @unit name=slices_iter_n6 props=C03 kind=bounded bound=mask=6_bits_bit_offset=0 fns=SlicesIterator::new,SlicesIterator::next
+// @unit name=slices_iter_n6 props=C03 kind=bounded bound=mask=6_bits_bit_offset=0 fns=SlicesIterator::new,SlicesIterator::next tier=thorough
 slices_iter!(slices_iter_n6, 6, 0);
-// @unit name=slices_iter_n6_off5 props=C03 kind=bounded bound=mask=6_bits_bit_offset=5_(crosses_a_byte) fns=SlicesIterator::new,SlicesIterator::next
+// @unit name=slices_iter_n6_off5 props=C03 kind=bounded bound=mask=6_bits_bit_offset=5_(crosses_a_byte) fns=SlicesIterator::new,SlicesIterator::next tier=thorough
 slices_iter!(slices_iter_n6_off5, 6, 5);
-// @unit name=slices_iter_n10 props=C03 kind=bounded bound=mask=10_bits_bit_offset=3 fns=SlicesIterator::new,SlicesIterator::next tier=thorough timeout=900 mem=6 note=not_confirmed_at_checkpoint
+// @unit name=slices_iter_n10 props=C03 kind=bounded bound=mask=10_bits_bit_offset=3 fns=SlicesIterator::new,SlicesIterator::next timeout=900 mem=6 tier=thorough note=not_confirmed_not_run
 slices_iter!(slices_iter_n10, 10, 3);
 
 // Contract (C03): FilterBuilder::optimize materialises exactly what the lazy iterator would yield:
@@ -319,12 +319,12 @@ macro_rules! optimize_indices {
         }
     };
 }
-// @unit name=optimize_indices_n6_k2 props=C03 kind=bounded bound=mask=6_bits_exactly_2_set_bit_offset=3 fns=FilterBuilder::optimize,FilterBuilder::new_with_count,IndexIterator::collect tier=thorough timeout=900 mem=6 note=not_confirmed_at_checkpoint
+// @unit name=optimize_indices_n6_k2 props=C03 kind=bounded bound=mask=6_bits_exactly_2_set_bit_offset=3 fns=FilterBuilder::optimize,FilterBuilder::new_with_count,IndexIterator::collect timeout=900 mem=6 tier=quick
 optimize_indices!(optimize_indices_n6_k2, 6, 2);
-// @unit name=optimize_indices_n5_k4 props=C03 kind=bounded bound=mask=5_bits_exactly_4_set_bit_offset=3 fns=FilterBuilder::optimize,FilterBuilder::new_with_count,IndexIterator::collect tier=thorough timeout=900 mem=6 note=not_confirmed_at_checkpoint
+// @unit name=optimize_indices_n5_k4 props=C03 kind=bounded bound=mask=5_bits_exactly_4_set_bit_offset=3 fns=FilterBuilder::optimize,FilterBuilder::new_with_count,IndexIterator::collect timeout=900 mem=6 tier=quick
 optimize_indices!(optimize_indices_n5_k4, 5, 4);
 
-// @unit name=optimize_slices_n8_k7 props=C03 kind=bounded bound=mask=8_bits_exactly_7_set_bit_offset=3 fns=FilterBuilder::optimize,FilterBuilder::new_with_count,SlicesIterator::next tier=thorough timeout=900 mem=6 note=not_confirmed_at_checkpoint
+// @unit name=optimize_slices_n8_k7 props=C03 kind=bounded bound=mask=8_bits_exactly_7_set_bit_offset=3 fns=FilterBuilder::optimize,FilterBuilder::new_with_count,SlicesIterator::next timeout=900 mem=6 tier=thorough note=not_confirmed_out_of_memory_measured
 #[kani::proof]
 #[kani::unwind(12)]
 #[kani::stub(alloc::fmt::format, stub_format)]
@@ -409,10 +409,12 @@ macro_rules! native_indices {
         }
     };
 }
-// @unit name=native_indices_n3_k2 props=C03 kind=bounded bound=rows=3_selected=2_strategy=Indices fns=filter_native tier=thorough timeout=900 mem=8
+// @unit name=native_indices_n3_k2 props=C03 kind=bounded bound=rows=3_selected=2_strategy=Indices fns=filter_native timeout=900 mem=8 tier=quick
 native_indices!(native_indices_n3_k2, 3, 2);
-// @unit name=native_indices_n4_k2 props=C03 kind=bounded bound=rows=4_selected=2_strategy=Indices fns=filter_native tier=thorough timeout=900 mem=8 note=not_confirmed_at_checkpoint
+// @unit name=native_indices_n4_k2 props=C03 kind=bounded bound=rows=4_selected=2_strategy=Indices fns=filter_native timeout=900 mem=8 tier=quick
 native_indices!(native_indices_n4_k2, 4, 2);
+// @unit name=native_indices_n6_k3 props=C03 kind=bounded bound=rows=6_selected=3_strategy=Indices fns=filter_native timeout=900 mem=8 tier=quick
+native_indices!(native_indices_n6_k3, 6, 3);
 
 // Contract (C03): filter_native::<i32> with strategy Slices([(s0,e0),(s1,e1)]) — two ordered, disjoint,
 // non-empty runs inside N rows whose total length is the predicate's count C (concrete) — outputs
@@ -445,7 +447,7 @@ macro_rules! native_slices {
         }
     };
 }
-// @unit name=native_slices_n5_c3 props=C03 kind=bounded bound=rows=5_selected=3_two_runs_(symbolic_boundaries)_strategy=Slices fns=filter_native tier=thorough timeout=900 mem=8 note=not_confirmed_at_checkpoint
+// @unit name=native_slices_n5_c3 props=C03 kind=bounded bound=rows=5_selected=3_two_runs_(symbolic_boundaries)_strategy=Slices fns=filter_native timeout=900 mem=8 tier=thorough
 native_slices!(native_slices_n5_c3, 5, 3);
 
 // Contract (C03): filter_bits(bits, predicate) with strategy Indices(v), |v| = K ascending positions < N,
@@ -492,17 +494,48 @@ macro_rules! bits_indices {
         }
     };
 }
-// @unit name=bits_indices_n4_k2 props=C03 kind=bounded bound=rows=4_selected=2_strategy=Indices_source_bit_offset=6 fns=filter_bits,FilterPredicate::filter_nulls tier=thorough timeout=900 mem=8
+// @unit name=bits_indices_n4_k2 props=C03 kind=bounded bound=rows=4_selected=2_strategy=Indices_source_bit_offset=6 fns=filter_bits,FilterPredicate::filter_nulls timeout=900 mem=8 tier=quick
 bits_indices!(bits_indices_n4_k2, 4, 2);
 
-// (filter_bits with the Slices strategy: symbolic run boundaries exceeded 10 GB after 333 CPU-seconds; the variant
-// with concrete runs is pending confirmation and not part of this snapshot.)
+// Contract (C03): filter_bits with strategy Slices([(S0,E0),(S1,E1)]) (two ordered disjoint non-empty runs,
+// concrete per instance: with symbolic run boundaries BooleanBufferBuilder::append_packed_range exceeded
+// 10 GB after 333 CPU-seconds) over symbolic source bits at bit offset 6: output bit k == source bit of
+// the k-th row of S0..E0 ++ S1..E1.
+macro_rules! bits_slices {
+    ($name:ident, $n:expr, $s0:expr, $e0:expr, $s1:expr, $e1:expr) => {
+        #[kani::proof]
+        #[kani::unwind(10)]
+        #[kani::stub(alloc::fmt::format, stub_format)]
+        fn $name() {
+            const N: usize = $n;
+            let (s0, e0, s1, e1): (usize, usize, usize, usize) = ($s0, $e0, $s1, $e1);
+            let c = (e0 - s0) + (e1 - s1);
+            let sb: [u8; 2] = kani::any();
+            let soff: usize = 6;
+            let src = BooleanBuffer::new(Buffer::from_slice_ref(&sb), soff, N);
+            let fp = materialised(N, c, IterationStrategy::Slices(vec![(s0, e0), (s1, e1)]));
+            let out = filter_bits(&src, &fp);
+            let mut k = 0;
+            while k < c {
+                let srow = if k < e0 - s0 { s0 + k } else { s1 + (k - (e0 - s0)) };
+                assert!(bit(out.as_slice(), k) == bit(&sb, soff + srow));
+                k += 1;
+            }
+            kani::cover!(bit(out.as_slice(), 0) && !bit(out.as_slice(), c - 1));
+            std::mem::forget(fp);
+        }
+    };
+}
+// @unit name=bits_slices_n5_runs_0_2_3_5 props=C03 kind=bounded bound=rows=5_runs=[0,2)+[3,5)_strategy=Slices_source_bit_offset=6 fns=filter_bits timeout=900 mem=8 tier=quick
+bits_slices!(bits_slices_n5_runs_0_2_3_5, 5, 0, 2, 3, 5);
+// @unit name=bits_slices_n5_runs_1_2_3_4 props=C03 kind=bounded bound=rows=5_runs=[1,2)+[3,4)_strategy=Slices_source_bit_offset=6 fns=filter_bits timeout=900 mem=8 tier=quick
+bits_slices!(bits_slices_n5_runs_1_2_3_4, 5, 1, 2, 3, 4);
 
 // Contract (C03, single attempt): FilterBytes::{extend_offsets_idx, extend_idx} — the core of filter_bytes
 // for the Indices strategy — on a Binary array of 3 rows (offsets symbolic monotone into 6 symbolic bytes)
 // and K = 2 ascending positions: dst_offsets == [0, len(v0), len(v0)+len(v1)] (prefix sums of the selected
 // lengths) and dst_values == value(v0) ++ value(v1).
-// @unit name=filter_bytes_idx_n3_k2 props=C03 kind=bounded bound=rows=3_value_bytes<=6_selected=2_strategy=Indices fns=FilterBytes::new,FilterBytes::extend_offsets_idx,FilterBytes::extend_idx tier=thorough timeout=900 mem=10 note=not_confirmed_at_checkpoint
+// @unit name=filter_bytes_idx_n3_k2 props=C03 kind=bounded bound=rows=3_value_bytes<=6_selected=2_strategy=Indices fns=FilterBytes::new,FilterBytes::extend_offsets_idx,FilterBytes::extend_idx timeout=900 mem=10 tier=quick
 #[kani::proof]
 #[kani::unwind(9)]
 #[kani::stub(alloc::fmt::format, stub_format)]
@@ -526,6 +559,172 @@ fn filter_bytes_idx_n3_k2() {
     if j < l1 { assert!(f.dst_values[l0 + j] == bytes[offs[v[1]] as usize + j]); }
     kani::cover!(l0 == 2 && l1 == 3);
     kani::cover!(l0 == 0 && l1 > 0 && v[0] == 1);
+    std::mem::forget(f);
+    std::mem::forget(a);
+}
+
+// ------------------------------------------------------------------------------------------------
+// layer 2: typed array wrappers (cores + validity + constructor), still with a materialised strategy
+// ------------------------------------------------------------------------------------------------
+
+// Contract (C03 + C01): filter_boolean(array, predicate) with strategy Indices(v), |v| = K ascending
+// positions < N, on a BooleanArray of N rows (values at bit offset 6, optional validity at bit offset 1,
+// all bits symbolic): the result is a well-formed BooleanArray of exactly K rows; row k is null <=> source
+// row v[k] is null, and otherwise has the value of source row v[k]; exact null count.
+macro_rules! filter_boolean_indices {
+    ($name:ident, $n:expr, $k:expr, $nulls:expr) => {
+        #[kani::proof]
+        #[kani::unwind(10)]
+        #[kani::stub(alloc::fmt::format, stub_format)]
+        fn $name() {
+            const N: usize = $n;
+            const K: usize = $k;
+            let vb: [u8; 2] = kani::any();
+            let bm: [u8; 2] = kani::any();
+            let a = mk_pred(&vb, 6, N, if $nulls { Some((&bm[..], 1)) } else { None });
+            let v = any_positions::<K>(N);
+            let fp = materialised(N, K, IterationStrategy::Indices(v.to_vec()));
+            let out = filter_boolean(&a, &fp);
+            assert!(out.len() == K);
+            let mut z = 0;
+            let mut k = 0;
+            while k < K {
+                let null = $nulls && !bit(&bm, 1 + v[k]);
+                assert!(out.is_null(k) == null);
+                if null { z += 1 } else { assert!(out.value(k) == bit(&vb, 6 + v[k])); }
+                k += 1;
+            }
+            assert!(out.null_count() == z);
+            if let Some(n) = out.nulls() { assert!(n.len() == K); }
+            kani::cover!(!$nulls || (z > 0 && z < K));
+            kani::cover!(z == 0 && out.value(0) && !out.value(K - 1));
+            std::mem::forget(out);
+            std::mem::forget(fp);
+            std::mem::forget(a);
+        }
+    };
+}
+// @unit name=filter_boolean_indices_n4_k2_nulls props=C03,C01 kind=bounded bound=rows=4_selected=2_strategy=Indices_with_validity fns=filter_boolean,filter_bits,FilterPredicate::filter_nulls timeout=900 mem=8 tier=quick
+filter_boolean_indices!(filter_boolean_indices_n4_k2_nulls, 4, 2, true);
+// @unit name=filter_boolean_indices_n4_k2 props=C03,C01 kind=bounded bound=rows=4_selected=2_strategy=Indices_no_validity fns=filter_boolean,filter_bits timeout=900 mem=8 tier=quick
+filter_boolean_indices!(filter_boolean_indices_n4_k2, 4, 2, false);
+
+// Contract (C03 + C01, single attempt): filter_primitive::<Int32Type>(array, predicate) with strategy
+// Indices(v): K rows, row k == source row v[k] (value on valid rows, null otherwise), exact null count.
+// The wrapper ends in PrimitiveArray::new (= try_new().unwrap()), whose unwrap path alone was measured at
+// > 600 s in arrow-array (see primitive_array.rs), so this is expected not to fit.
+// @unit name=filter_primitive_indices_n3_k2 props=C03,C01 kind=bounded bound=rows=3_selected=2_strategy=Indices_with_validity fns=filter_primitive,filter_native,FilterPredicate::filter_nulls timeout=900 mem=10 tier=thorough note=not_confirmed_out_of_memory_measured
+#[kani::proof]
+#[kani::unwind(10)]
+#[kani::stub(alloc::fmt::format, stub_format)]
+fn filter_primitive_indices_n3_k2() {
+    const N: usize = 3;
+    const K: usize = 2;
+    let vals: [i32; N] = kani::any();
+    let bm: [u8; 1] = kani::any();
+    let a = unsafe {
+        PrimitiveArray::<arrow_array::types::Int32Type>::new_unchecked(
+            ScalarBuffer::new(Buffer::from_slice_ref(&vals), 0, N),
+            Some(NullBuffer::new(BooleanBuffer::new(Buffer::from_slice_ref(&bm), 2, N))),
+        )
+    };
+    let v = any_positions::<K>(N);
+    let fp = materialised(N, K, IterationStrategy::Indices(v.to_vec()));
+    let out = filter_primitive(&a, &fp);
+    assert!(out.len() == K);
+    let mut k = 0;
+    while k < K {
+        let null = !bit(&bm, 2 + v[k]);
+        assert!(out.is_null(k) == null);
+        if !null { assert!(out.value(k) == vals[v[k]]); }
+        k += 1;
+    }
+    kani::cover!(out.null_count() == 1);
+    std::mem::forget(out);
+    std::mem::forget(fp);
+    std::mem::forget(a);
+}
+
+// Contract (C03 + C01): filter_bytes::<BinaryType>(array, predicate) with strategy Indices(v), |v| = 2
+// ascending positions < 3, on a Binary array of 3 rows (4 symbolic monotone offsets into 6 symbolic bytes,
+// optional validity at bit offset 3): the result is a well-formed Binary array of 2 rows — offsets start at
+// 0, are monotone, end at values.len() == sum of the selected lengths — whose row k has exactly the bytes of
+// source row v[k] and is null <=> source row v[k] is null; exact null count.
+macro_rules! filter_bytes_indices {
+    ($name:ident, $nulls:expr) => {
+        #[kani::proof]
+        #[kani::unwind(9)]
+        #[kani::stub(alloc::fmt::format, stub_format)]
+        fn $name() {
+            let offs: [i32; 4] = kani::any();
+            kani::assume(offs[0] >= 0 && offs[0] <= offs[1] && offs[1] <= offs[2] && offs[2] <= offs[3] && offs[3] <= 6);
+            let bytes: [u8; 6] = kani::any();
+            let bm: [u8; 1] = kani::any();
+            let ob = unsafe { OffsetBuffer::new_unchecked(ScalarBuffer::new(Buffer::from_slice_ref(&offs), 0, 4)) };
+            let nulls = if $nulls { Some(NullBuffer::new(BooleanBuffer::new(Buffer::from_slice_ref(&bm), 3, 3))) } else { None };
+            let a = unsafe { GenericByteArray::<BinaryType>::new_unchecked(ob, Buffer::from_slice_ref(&bytes), nulls) };
+            let v = any_positions::<2>(3);
+            let fp = materialised(3, 2, IterationStrategy::Indices(v.to_vec()));
+            let out = filter_bytes(&a, &fp);
+            assert!(out.len() == 2);
+            let o = out.value_offsets();
+            assert!(o.len() == 3 && o[0] == 0 && o[0] <= o[1] && o[1] <= o[2]);
+            assert!(o[2] as usize == out.value_data().len());
+            let mut z = 0;
+            let mut k = 0;
+            while k < 2 {
+                let (sa, sb) = (offs[v[k]] as usize, offs[v[k] + 1] as usize);
+                let val = out.value(k);
+                assert!(val.len() == sb - sa);
+                let j: usize = kani::any();
+                if j < sb - sa { assert!(val[j] == bytes[sa + j]); }
+                let null = $nulls && !bit(&bm, 3 + v[k]);
+                assert!(out.is_null(k) == null);
+                if null { z += 1 }
+                k += 1;
+            }
+            assert!(out.null_count() == z);
+            kani::cover!(o[1] == 2 && o[2] == 5);
+            kani::cover!(!$nulls || z == 1);
+            std::mem::forget(out);
+            std::mem::forget(fp);
+            std::mem::forget(a);
+        }
+    };
+}
+// @unit name=filter_bytes_indices_n3_k2 props=C03,C01 kind=bounded bound=rows=3_value_bytes<=6_selected=2_strategy=Indices_no_validity fns=filter_bytes,FilterBytes::extend_offsets_idx,FilterBytes::extend_idx timeout=900 mem=8 tier=quick
+filter_bytes_indices!(filter_bytes_indices_n3_k2, false);
+// @unit name=filter_bytes_indices_n3_k2_nulls props=C03,C01 kind=bounded bound=rows=3_value_bytes<=6_selected=2_strategy=Indices_with_validity fns=filter_bytes,FilterBytes::extend_offsets_idx,FilterBytes::extend_idx,FilterPredicate::filter_nulls timeout=900 mem=8 tier=thorough
+filter_bytes_indices!(filter_bytes_indices_n3_k2_nulls, true);
+
+// Contract (C03): FilterBytes::{extend_offsets_slices, extend_slices} — the core of filter_bytes for the
+// Slices strategy — with the concrete runs [0,1) and [2,4) over a Binary array of 4 rows (5 symbolic
+// monotone offsets into 6 symbolic bytes): dst_offsets == prefix sums of the lengths of rows 0, 2, 3 and
+// dst_values == value(0) ++ value(2) ++ value(3).
+// @unit name=filter_bytes_slices_n4_runs_0_1_2_4 props=C03 kind=bounded bound=rows=4_value_bytes<=6_runs=[0,1)+[2,4)_strategy=Slices fns=FilterBytes::extend_offsets_slices,FilterBytes::extend_slices timeout=900 mem=8 tier=quick
+#[kani::proof]
+#[kani::unwind(9)]
+#[kani::stub(alloc::fmt::format, stub_format)]
+fn filter_bytes_slices_n4_runs_0_1_2_4() {
+    let offs: [i32; 5] = kani::any();
+    kani::assume(offs[0] >= 0 && offs[0] <= offs[1] && offs[1] <= offs[2] && offs[2] <= offs[3] && offs[3] <= offs[4] && offs[4] <= 6);
+    let bytes: [u8; 6] = kani::any();
+    let ob = unsafe { OffsetBuffer::new_unchecked(ScalarBuffer::new(Buffer::from_slice_ref(&offs), 0, 5)) };
+    let a = unsafe { GenericByteArray::<BinaryType>::new_unchecked(ob, Buffer::from_slice_ref(&bytes), None) };
+    let runs = [(0usize, 1usize), (2, 4)];
+    let mut f = FilterBytes::new(3, &a);
+    f.extend_offsets_slices(runs.iter().copied(), 3);
+    f.extend_slices(runs.iter().copied());
+    let l0 = (offs[1] - offs[0]) as usize;
+    let l2 = (offs[3] - offs[2]) as usize;
+    let l3 = (offs[4] - offs[3]) as usize;
+    assert!(f.dst_offsets.len() == 4);
+    assert!(f.dst_offsets[0] == 0 && f.dst_offsets[1] as usize == l0 && f.dst_offsets[2] as usize == l0 + l2 && f.dst_offsets[3] as usize == l0 + l2 + l3);
+    assert!(f.dst_values.len() == l0 + l2 + l3);
+    let j: usize = kani::any();
+    if j < l0 { assert!(f.dst_values[j] == bytes[offs[0] as usize + j]); }
+    if j < l2 + l3 { assert!(f.dst_values[l0 + j] == bytes[offs[2] as usize + j]); }
+    kani::cover!(l0 == 1 && l2 == 2 && l3 == 1 && offs[2] > offs[1]);
     std::mem::forget(f);
     std::mem::forget(a);
 }
